@@ -24,8 +24,18 @@ def leaf_split(leaf, root, seed, stats):
     cap = (limit // bs) * ns if limit else 300
     targets = []
     cur = 0
+    LIMS = [0, 3 * bs, 4 * bs + 17, 5000, 8 * bs, 10 * bs - 1, 33333, 100 * bs + 1]
+    curlim = [limit]
     for _ in range(10 + rng.below(10)):
-        k = rng.below(6)
+        k = rng.below(7)
+        if k == 6:
+            # space was freed / used up on the disks of the splits: another limit from now on (an unlimited phase
+            # after a limited one leaves over-sized files the model does not describe: not generated)
+            # (only larger limits: a file that already exceeds a smaller limit is not a state a real file system has)
+            bigger = [x for x in LIMS if x > curlim[0]]
+            if curlim[0] != 0 and bigger:
+                curlim[0] = rng.choice(bigger); targets.append('L%d' % curlim[0])
+            continue
         if k == 0: cur = max(0, cur - rng.below(cur + 1))
         elif k == 1: cur = rng.below(cap + 3)
         elif k == 2: targets.append('r'); continue
@@ -42,6 +52,8 @@ def leaf_split(leaf, root, seed, stats):
     for t in targets:
         if t == 'r':
             j += 1; continue
+        if t.startswith('L'):
+            limit = int(t[1:]); j += 1; continue
         tok = res[j]; j += 1
         parts = tok.split(':')
         crc = int(parts[0].split('=')[1])
@@ -136,7 +148,7 @@ def twin(exe, root, seed, stats):
             stats['out_of_space'] = stats.get('out_of_space', 0) + 1
             break       # the simulated disks are full: legitimate refusal
         if rcs[0] != rcs[1]:
-            problems.append(('sync exits %d on the split array and %d on the unsplit twin (splits=%d limit=%d)' % (rcs[1], rcs[0], nsplit, limit), '\n'.join(sims[1].history))); break
+            problems.append(('sync exits %d on the split array and %d on the unsplit twin (splits=%d limit=%d)' % (rcs[1], rcs[0], nsplit, limit), rr[1].out[-900:] + '\n---\n' + rr[0].out[-300:] + '\n' + '\n'.join(sims[1].history))); break
         p = cmp_parity('after sync %d' % step)
         if p:
             problems.append((p + ' (splits=%d limit=%d)' % (nsplit, limit), '\n'.join(sims[1].history))); break
